@@ -16,12 +16,18 @@ import time
 
 HERE = os.path.dirname(os.path.abspath(__file__))
 ROOT = os.path.dirname(HERE)
-COQ = os.path.join(ROOT, 'coq')
 REPO = os.environ.get('FSIC_REPO', '/repo')
+SHARED_COQ = os.path.join(ROOT, 'coq')
+# Runs against a scratch copy of the repository (mutation / seeded-change runs, FSIC_REPO=<copy>) get a PRIVATE copy of
+# the Coq development: the regenerated constants of a mutated tree must never land in the shared build directory.
+if os.path.realpath(REPO) != os.path.realpath('/repo'):
+    COQ = os.path.join('/tmp/verif_coq', hashlib.md5(os.path.realpath(REPO).encode()).hexdigest()[:10], 'coq')
+else:
+    COQ = SHARED_COQ
 PY = '/venv/bin/python'
 NPROC = int(os.environ.get('VERIF_JOBS', '16'))
 
-IMPL_ENV = dict(os.environ, PYTHONPATH=REPO + os.pathsep + HERE, PYTHONHASHSEED='0', FSIC_VERIF='1',
+IMPL_ENV = dict(os.environ, VERIF_COQ_DIR=COQ, PYTHONPATH=REPO + os.pathsep + HERE, PYTHONHASHSEED='0', FSIC_VERIF='1',
                 OMP_NUM_THREADS='1', OPENBLAS_NUM_THREADS='1', MKL_NUM_THREADS='1', PYTHONWARNINGS='ignore')
 
 FORBIDDEN = re.compile(r'\b(Admitted|admit|Axiom|Axioms|Parameter|Parameters|Conjecture|Conjectures|Unset\s+Guard|bypass_check|Admit\s+Obligations|type-in-type|impredicative-set|Unset\s+Universe\s+Checking|Unset\s+Positivity)\b')
@@ -110,6 +116,11 @@ class BuildResult:
 def build_coq(jobs=NPROC):
     """Regenerate Gen/Generated.v from /repo and run the full .vo build (under a lock)."""
     res = BuildResult()
+    if COQ != SHARED_COQ:
+        os.makedirs(COQ, exist_ok=True)
+        with open(os.path.join(SHARED_COQ, '.build.lock'), 'a') as lk:     # consistent snapshot of the shared development
+            fcntl.flock(lk, fcntl.LOCK_EX)
+            subprocess.run(['rsync', '-a', '--delete', '--exclude', 'cases/', SHARED_COQ + '/', COQ + '/'], check=True, timeout=600)
     os.makedirs(os.path.join(COQ, 'cases'), exist_ok=True)
     try:
         g = subprocess.run([PY, os.path.join(HERE, 'gen_constants.py')], env=IMPL_ENV, capture_output=True, text=True, timeout=300)
@@ -118,7 +129,7 @@ def build_coq(jobs=NPROC):
         if g.returncode != 0:
             return res
         res.cmd = 'harness/build.sh  (coq_makefile -f _CoqProject && make -j%d; full .vo build, Coq 8.16.1)' % jobs
-        b = subprocess.run([os.path.join(HERE, 'build.sh'), '-k'], env=dict(os.environ, BUILD_JOBS=str(jobs)), capture_output=True, text=True, timeout=3600)
+        b = subprocess.run([os.path.join(HERE, 'build.sh'), '-k'], env=dict(os.environ, BUILD_JOBS=str(jobs), VERIF_COQ_DIR=COQ), capture_output=True, text=True, timeout=3600)
         res.log += b.stdout + b.stderr
         res.ok = b.returncode == 0
         res.failed_files = re.findall(r'^File "\./([^"]+)", line', b.stdout + b.stderr, re.M)
@@ -384,8 +395,13 @@ def load_known():
     return k
 
 
+def out_root():
+    """Where evidence / replays go: /verif for runs against /repo, a scratch dir for runs against a copy."""
+    return ROOT if COQ == SHARED_COQ else os.path.dirname(COQ)
+
+
 def write_replay(prop, payload):
-    d = os.path.join(ROOT, 'replays', prop)
+    d = os.path.join(out_root(), 'replays', prop)
     os.makedirs(d, exist_ok=True)
     path = os.path.join(d, '%s.json' % jhash(payload))
     with open(path, 'w') as f:
@@ -394,7 +410,7 @@ def write_replay(prop, payload):
 
 
 def write_evidence(prop, ev):
-    d = os.path.join(ROOT, 'evidence')
+    d = os.path.join(out_root(), 'evidence')
     os.makedirs(d, exist_ok=True)
     with open(os.path.join(d, '%s.json' % prop), 'w') as f:
         json.dump(ev, f, indent=1, sort_keys=True, default=str)
